@@ -466,6 +466,11 @@ func (b *BaseStore) Load(ctx context.Context, amount int) error {
 		amount = *b.options.MaxHistory
 	}
 
+	// a non-positive limit loads everything
+	if amount <= 0 {
+		amount = -1
+	}
+
 	var localHeads, remoteHeads []*entry.Entry
 	localHeadsBytes, err := b.Cache().Get(ctx, datastore.NewKey("_localHeads"))
 	if err != nil && err != datastore.ErrNotFound {
@@ -576,13 +581,21 @@ func (b *BaseStore) Load(ctx context.Context, amount int) error {
 			span.AddEvent("store-head-loaded")
 
 			span.AddEvent("store-heads-joining")
-			if _, inErr = oplog.Join(l, amount); inErr != nil {
+			if _, inErr = oplog.Join(l, -1); inErr != nil {
 				span.AddEvent("store-heads-joining-failed")
 				// err = fmt.Errorf("unable to join log: %w", err)
 				// TODO: log
 				_ = inErr
 			} else {
 				span.AddEvent("store-heads-joined")
+
+				// keep the `amount` most recent entries: Join slices the merged log by
+				// `size`, which is only valid when the log holds more than that
+				if amount > 0 && oplog.Len() > amount {
+					if _, inErr = oplog.Join(l, amount); inErr != nil {
+						span.AddEvent("store-heads-trimming-failed")
+					}
+				}
 			}
 		}(h)
 	}
